@@ -170,3 +170,111 @@ func ZZ_C08_FS() {
 		}
 	}
 }
+
+// ZZ_C08_GZ: the Compress option with compressed twins that already exist beside their files
+// (same modification time, so they are fresh): a request that accepts gzip and carries no Range
+// header gets the twin's bytes with Content-Encoding: gzip; every other request gets the bytes
+// of the file itself (a Range always selects from the uncompressed file); a missing index name
+// ahead of the existing one does not hide it; missing files stay 404. Creating twins (the gzip
+// writer) is outside: every file of this tree has its twin.
+func ZZ_C08_GZ() {
+	base := zz.FSRoot()
+	defer zz.FSDone(base)
+	root := base + "/root"
+	small := zz.Bytes("small", zz.Range("smalllen", 0, zz.Param("F", 2)))
+	contents := [][]byte{small, []byte("INDEX")}
+	twins := [][]byte{[]byte("\x1f\x8bTWIN-OF-S"), []byte("\x1f\x8bTWIN-OF-INDEX")}
+	zz.FSAdd(root+"/s.css", small)
+	zz.FSAdd(root+"/s.css.hertz.gz", twins[0])
+	zz.FSAdd(root+"/d/index.html", contents[1])
+	zz.FSAdd(root+"/d/index.html.hertz.gz", twins[1])
+	targets := []zzFSTarget{{"/s.css", 0, 0}, {"/d/", 0, 1}, {"/missing.css", 1, 0}}
+	fs := &FS{
+		Root:            root,
+		IndexNames:      []string{"nope.html", "index.html"},
+		Compress:        true,
+		AcceptByteRange: zz.Choose("acceptByteRange", 2) == 1,
+		CacheDuration:   time.Hour,
+	}
+	h := fs.NewRequestHandler()
+	ranges := []string{"bytes=0-0", "bytes=1-"}
+	firstTarget := zz.Choose("target", len(targets))
+	rounds := zz.Range("requests", 1, zz.Param("Q", 2))
+	for round := 0; round < rounds; round++ {
+		ti := firstTarget
+		if round > 0 && zz.Choose("otherTarget", 2) == 1 {
+			ti = (firstTarget + 1) % 2
+		}
+		tg := targets[ti]
+		head := zz.Choose("head", 2) == 1
+		gz := zz.Choose("acceptsGzip", 2) == 1
+		var rng []byte
+		if zz.Choose("range", 2) == 1 {
+			rng = []byte(ranges[zz.Choose("rangeform", len(ranges))])
+		}
+		ctx := NewContext(0)
+		ctx.Request.SetRequestURI(tg.uri)
+		if head {
+			ctx.Request.Header.SetMethod("HEAD")
+		}
+		if gz {
+			ctx.Request.Header.Set("Accept-Encoding", "gzip")
+		}
+		if rng != nil {
+			ctx.Request.Header.SetBytesKV([]byte("Range"), rng)
+		}
+		h(context.Background(), ctx)
+		status := ctx.Response.StatusCode()
+		var body []byte
+		if ctx.Response.IsBodyStream() {
+			buf := make([]byte, 64)
+			r := ctx.Response.BodyStream()
+			for i := 0; i < 16; i++ {
+				n, err := r.Read(buf)
+				body = append(body, buf[:n]...)
+				if err != nil {
+					break
+				}
+			}
+			ctx.Response.CloseBodyStream() //nolint:errcheck
+		} else {
+			body = ctx.Response.Body()
+		}
+		cl := ctx.Response.Header.ContentLength()
+		ce := ctx.Response.Header.Peek("Content-Encoding")
+		zz.Cover("reached-assert", true)
+		if tg.kind == 1 {
+			zz.Assert("missing-gets-404", status == 404)
+			continue
+		}
+		useTwin := gz && rng == nil
+		content := contents[tg.file]
+		if useTwin {
+			zz.Cover("twin-served", true)
+			content = twins[tg.file]
+		}
+		zz.Assert("content-encoding-gzip-exactly-when-the-twin-is-served", (string(ce) == "gzip") == useTwin)
+		rs, re, ok := 0, len(content)-1, true
+		ranged := rng != nil && fs.AcceptByteRange
+		if ranged {
+			rs, re, ok = zzRefRange(rng[6:], len(content))
+		}
+		if !ok {
+			zz.Assert("unsatisfiable-range-gets-416", status == 416)
+			continue
+		}
+		wantStatus := 200
+		if ranged {
+			wantStatus = 206
+			zz.Cover("range-of-the-uncompressed-file", gz)
+		}
+		zz.Assert("status", status == wantStatus)
+		want := content[rs : re+1]
+		zz.Assert("content-length-matches-selected-bytes", cl == len(want))
+		if head {
+			zz.Assert("head-has-no-body", len(body) == 0)
+		} else {
+			zz.Assert("body-is-exactly-the-requested-slice", bytes.Equal(body, want))
+		}
+	}
+}
